@@ -19,7 +19,7 @@ func TestVerifC03Core(t *testing.T) {
 	env := rec.env
 	var caseIdx int64
 	inBubble(t, func() {
-		for q := 0; q < env.pickN(640, 20000); q++ {
+		for q := 0; q < env.pickN(640, 8000); q++ {
 			idx := caseIdx
 			caseIdx++
 			if !env.mine(idx) {
